@@ -374,7 +374,7 @@ class Gen:
         if f == "mean" and r.random() < 0.7:
             d = [r.choice([1, 2, 4, 8])] if len(d) == 1 else [r.choice([1, 2, 4]) for _ in d]
         s = self.scalar(0)
-        style = "prod" if f == "product" else "distinct" if f in ("minval", "maxval") and r.random() < 0.7 else "any"
+        style = "prod" if f in ("product", "norm2") else "distinct" if f in ("minval", "maxval") and r.random() < 0.7 else "any"
         k = r.choice(["red", "red", "rede", "dot"])
         if k == "dot" or (k == "rede" and len(d) == 1 and r.random() < 0.5):
             n = [d[0]]
@@ -396,7 +396,7 @@ class Gen:
             d[dim] = r.choice([1, 2, 3])
         if f == "mean" and r.random() < 0.7:
             d[dim] = r.choice([1, 2, 4, 8])
-        style = "prod" if f == "product" else "any"
+        style = "prod" if f in ("product", "norm2") else "any"
         a = self.operand(d, True, style=style, reuse=0.0 if style != "any" else 0.25)
         nh = self.h()
         nd = d[:dim] + d[dim + 1:]
@@ -538,6 +538,7 @@ class Verdict:
         self.fevents = 0
         self.tapes = []         # per statement: tape part (for the small-capacity comparison)
         self.crash = None
+        self.singular = False
 
 
 def judge(ops, il, W, rc=0, err=""):
@@ -568,7 +569,11 @@ def judge(ops, il, W, rc=0, err=""):
             try:
                 msg = orc.statement(w, P)
             except ZeroDivisionError:
-                msg = None; v.notes.append("division by zero in the denoted program (case not judged)")
+                # a singular point of the denoted program (x/0, sqrt'(0)): outside the property's domain; nothing
+                # after it in this case can be judged
+                v.notes.append("singular point in the denoted program (rest of the case not judged)")
+                v.singular = True
+                break
             if msg:
                 v.oracle.append((i, msg))
             allexact = allexact and P.exact
